@@ -9,6 +9,7 @@ import (
 	"fmt"
 	"os"
 	"sort"
+	"strings"
 	"sync"
 	"time"
 
@@ -190,6 +191,7 @@ type vcWorld struct {
 	base   time.Time
 	shortL time.Duration
 	orig   map[string]bpv7.Bundle // what was handed to the node, by name
+	shortExp map[string]time.Time // expiry instants of the short-lived bundles built so far
 	origB  map[string][]byte
 
 	mu               sync.Mutex
@@ -203,6 +205,9 @@ type vcWorld struct {
 
 func vcNameOf(b bpv7.Bundle) string {
 	if b.IsAdministrativeRecord() {
+		if src := b.PrimaryBlock.SourceNode.String(); strings.HasPrefix(src, "dtn://src-") {
+			return strings.TrimSuffix(strings.TrimPrefix(src, "dtn://src-"), "/") // an administrative record of the catalogue
+		}
 		return "admin"
 	}
 	for _, t := range []uint64{bpv7.ExtBlockTypeProphetBlock, bpv7.ExtBlockTypeDTLSRBlock} {
@@ -236,8 +241,8 @@ func vcNewWorld(dir, algo string, budget int, peers []string, cat map[string]vcA
 	vcTickerOnce.Do(func() {
 		cla.VerifTickerHook = func(_ *cla.Manager, t *time.Ticker) { t.C = make(chan time.Time) }
 	})
-	w := &vcWorld{dir: dir, algo: algo, budget: budget, cat: cat, peers: map[string]*vcPeer{}, base: time.Now(), shortL: 1200 * time.Millisecond,
-		orig: map[string]bpv7.Bundle{}, origB: map[string][]byte{}, barrierCh: make(chan string, 16), seenReports: map[string]bool{}}
+	w := &vcWorld{dir: dir, algo: algo, budget: budget, cat: cat, peers: map[string]*vcPeer{}, base: time.Now(), shortL: 2000 * time.Millisecond,
+		shortExp: map[string]time.Time{}, orig: map[string]bpv7.Bundle{}, origB: map[string][]byte{}, barrierCh: make(chan string, 16), seenReports: map[string]bool{}}
 	for n := range cat {
 		w.names = append(w.names, n)
 	}
@@ -354,10 +359,16 @@ func (w *vcWorld) build(name string) bpv7.Bundle {
 		dst = "dtn://node/app"
 	case "noagent":
 		dst = "dtn://node/none"
+	case "bcast":
+		dst = "dtn://routing/dtlsr/broadcast/"
 	default:
 		dst = "dtn://" + a.Dst + "/"
 	}
 	ts := w.base.Add(time.Duration(idx+1) * time.Millisecond)
+	if a.Life == "short" {
+		ts = time.Now() // built when first handed to the node: the short lifetime counts from then
+		w.shortExp[name] = ts.Add(w.shortL)
+	}
 	if a.Tsg > 0 {
 		ts = w.base.Add(time.Duration(100+a.Tsg) * time.Millisecond)
 	}
